@@ -271,6 +271,10 @@ add("refactor_v2000_clear_inline", (V2, '''        _clear_atom_attribute(CHG, at
         _clear_atom_attribute(RAD, atom_attrs)''', '''        for atom_attr in atom_attrs.values():
             atom_attr.pop(CHG, None)
             atom_attr.pop(RAD, None)'''), silent=True)
+add("parser_rejects_large_mass", (PAR, "        attrs_for_node[attr_key] = value", "        if value > 400:\n            raise TucanParserException(f'Atom {node_index}: value {value} out of range.')\n        attrs_for_node[attr_key] = value"), fires={"R-REJECT"})
+add("parser_rejects_heavy_element_count", (PAR, "        self._atoms.extend([atom_attrs.copy() for _ in range(count)])", "        if count > 5000:\n            raise TucanParserException('too many atoms')\n        self._atoms.extend([atom_attrs.copy() for _ in range(count)])"), fires={"R-REJECT"})
+add("refactor_parser_index_check_range", (PAR, "        if index >= len(self._atoms):", "        if index not in range(len(self._atoms)):"), silent=True)
+add("refactor_parser_index_check_early_return", (PAR, "        if index >= len(self._atoms):\n            raise TucanParserException(f\"Atom with index {index + 1} does not exist.\")", "        if 0 <= index < len(self._atoms):\n            return\n        raise TucanParserException(f\"Atom with index {index + 1} does not exist.\")"), silent=True)
 add("refactor_parser_inline_add_bond", (PAR, "        self._add_bond(index1, index2)", "        self._bonds.append((index1 - 1, index2 - 1))"), silent=True)
 add("refactor_sort_by_label_add_node", (GU, '''    nodes_sorted_by_label = sorted(list(m.nodes(data=True)))
 
